@@ -89,6 +89,7 @@ func (r *Reassembler) PushMessage(msg *auparse.AuditMessage) {
 	}
 
 	r.list.Put(msg)
+	verifYield("push")
 	evicted, lost := r.list.CleanUp()
 	r.callback(evicted, lost)
 }
@@ -114,6 +115,7 @@ func (r *Reassembler) Maintain() error {
 	if atomic.LoadInt32(&r.closed) == 1 {
 		return errReassemblerClosed
 	}
+	verifYield("maintain")
 	evicted, lost := r.list.CleanUp()
 	r.callback(evicted, lost)
 	return nil
@@ -122,6 +124,7 @@ func (r *Reassembler) Maintain() error {
 // Close flushes any cached events and closes the Reassembler.
 func (r *Reassembler) Close() error {
 	if atomic.CompareAndSwapInt32(&r.closed, 0, 1) {
+		verifYield("close")
 		evicted, lost := r.list.Clear()
 		r.callback(evicted, lost)
 		return nil
